@@ -112,6 +112,15 @@ def classify_internal(files, tb):
                     if R.int_class(cand) == 'raises:' + tb['type']:
                         return 'KF-C18-1'
         return None
+    if inner == ('exactly_lib/impls/types/matcher/impls/matches_glob_pattern.py', '_match_path') \
+            and tb['type'] == 'ValueError' and tb['message'] == 'empty pattern':
+        # KF-C18-3: file matcher `path GLOB-PATTERN` hands the pattern to pathlib unchecked; pathlib refuses a
+        # pattern without parts ('' / '.' / './').  Model: `path` occurs and some argument is such a pattern.
+        if re.search(r'(^|\s)path(\s|$)', '\n'.join(texts)):
+            for c in R.candidate_strings(texts):
+                if '@[' not in c and R.path_glob_refused(c):
+                    return 'KF-C18-3'
+        return None
     in_replace = any(f[0] == 'exactly_lib/impls/types/string_transformer/impl/replace/impl.py' for f in tb['frames'])
     in_template = any(f[1] in ('parse_template', '_compile_template', 'expand_template', '_subx', 'template')
                       for f in tb['frames'] if not f[0].startswith('exactly_lib/'))
@@ -214,7 +223,14 @@ def targeted_demand(doc, f, info):
     if info.get('elem') is None:
         return None
     elem = elems[info['elem']]
-    if elem['name'] in ('def', '(comment)', '(description)', '(header)', '(blank)') or elem['ph'] == 'act':
+    if info['op'] == 'badhdr':
+        return {'why': 'the line %r begins with `[` but is not a phase header' % info['token'], 'kf': None,
+                'idents': ('SYNTAX_ERROR',)}
+    if elem['name'] in M.NOT_INSTRUCTION_ELEMENTS or elem['ph'] == 'act':
+        return None
+    if info['op'] == 'badinstr':
+        return {'why': 'there is no instruction %r' % info['token'], 'kf': None, 'idents': ('SYNTAX_ERROR',)}
+    if elem['name'] == 'def':
         return None
     if info['op'] == 'wrongref':
         old_type = info['kind'].split(':', 1)[1]
@@ -270,7 +286,7 @@ def strict_problem(doc, f, info, demand, files, obs, parent_obs):
     detail = {'mistake': demand['why'], 'mutated_token': info['token'], 'replaced': info['old'],
               'file': fname, 'instruction_first_line': want_line, 'parent_outcome': p_ident}
     kind = info['kind'].split(':')[0]
-    if ident in ('SYNTAX_ERROR', 'VALIDATION_ERROR', 'HARD_ERROR'):
+    if ident in demand.get('idents', ('SYNTAX_ERROR', 'VALIDATION_ERROR', 'HARD_ERROR')):
         if p_ident == 'HARD_ERROR' and ident == 'HARD_ERROR' and obs['err'] == parent_obs['err']:
             return None  # the parent stops before the instruction runs
         rep = R.parse_report(obs['err'])
@@ -283,11 +299,11 @@ def strict_problem(doc, f, info, demand, files, obs, parent_obs):
                     dict(detail, what='the report does not point at the instruction that holds the mistake',
                          reported=[got_file, last[1]]), None)
         return None
-    if ident == 'SKIPPED' and p_ident == 'SKIPPED':
+    if ident == 'SKIPPED' and p_ident == 'SKIPPED' and 'idents' not in demand:
         return None
     if ident == 'INTERNAL_ERROR':
         return None  # the generic oracle has reported / classified it
-    if ident in IDENTS_COMPLETE or ident == 'SKIPPED':
+    if ident in IDENTS_COMPLETE or ident == 'SKIPPED' or 'idents' in demand:
         known = None
         if demand.get('kf') == 'KF-C18-2' and (obs['exit'], ident) == (parent_obs['exit'], p_ident):
             known = 'KF-C18-2'  # never validated, and the transformer was applied to no line: behaves as the parent
@@ -402,12 +418,15 @@ def strategy_generic(tier):
     })
 
 
-_FOCI = ['int', 'int', 'regex', 'regex', 'repl', 'repl', 'range', 'glob', 'ref', 'ref']
+_FOCI = ['int', 'int', 'regex', 'regex', 'repl', 'repl', 'range', 'glob', 'ref', 'ref', 'structure']
 
 
 def strategy_bad_values(tier):
     def for_focus(focus):
-        if focus == 'ref':
+        if focus == 'structure':
+            ops = M.op_strategy(['badhdr', 'badinstr'])
+            focus = None
+        elif focus == 'ref':
             ops = M.op_strategy(['wrongref'])
         elif focus == 'glob':
             ops = M.op_strategy(['extreme', 'badval'])
